@@ -21,7 +21,7 @@ RULE = (
     "Hypothesis-generated middleware stacks of 0-3 synthesised TaskiqMiddleware subclasses, each overriding any subset "
     "of the six hooks (each defined on the registered class itself or inherited from an intermediate middleware class), every hook sync or async, pre_send / pre_execute optionally REPLACING the message by a stamped "
     "copy (so that 'each sees its predecessor's message' is observable in data); 1-4 messages sent through the real "
-    "AsyncKicker.kiq (sequentially or concurrently), kick() failing for a generated subset, then delivered to the real "
+    "AsyncKicker.kiq (sequentially or concurrently; in a third of the cases through a kicker built for ANOTHER broker with its own middleware and redirected with with_broker()), kick() failing for a generated subset, then delivered to the real "
     "Receiver.listen() with generated arrival instants (concurrent executions), outcomes return / raise / BaseException / "
     "no-result / timeout, result-backend failures on a generated subset. Oracle: the per-message projection of the "
     "trace equals the documented sequence exactly: pre_send[in order] -> kick -> post_send[in order] (failing kick => "
@@ -52,6 +52,7 @@ def scenario() -> Any:
         "fail_saves": st.sets(st.integers(0, 3), max_size=2),
         "fail_kicks": st.sets(st.integers(0, 3), max_size=2),
         "concurrent_send": st.booleans(),
+        "redirect": st.sampled_from([False, False, True]),
         "ack_type": st.sampled_from(["when_received", "when_executed", "when_saved"]),
     }).map(fin)
 
@@ -80,6 +81,10 @@ def run_case(sc: Dict[str, Any]) -> Outcome:
     built = wh.build_middlewares(mws, tr)
     if built:
         b.add_middlewares(*built)
+    other = wh.ScriptedBroker(tr)
+    decoy_spec = [{h: {"async": False, "stamp": True} for h in ("pre_send", "post_send")}]
+    for mw in wh.build_middlewares(decoy_spec, tr, base=100):    # its events carry mw=100: never expected
+        other.add_middlewares(mw)
     send_result: Dict[int, str] = {}
     res: Dict[str, Any] = {"returned": False, "exc": None}
 
@@ -88,7 +93,12 @@ def run_case(sc: Dict[str, Any]) -> Outcome:
         labels = {}
         if sp.get("timeout") is not None:
             labels["timeout"] = sp["timeout"]
-        k = AsyncKicker("stask" if sp["kind"] == "sync" else "atask", b, labels).with_task_id(f"id{i}")
+        if sc.get("redirect"):
+            # the documented way to send through another broker: a kicker built for broker `other` (with a middleware
+            # stack of its own) is redirected with with_broker(b); only b's hooks may run for this send
+            k = AsyncKicker("stask" if sp["kind"] == "sync" else "atask", other, labels).with_broker(b).with_task_id(f"id{i}")
+        else:
+            k = AsyncKicker("stask" if sp["kind"] == "sync" else "atask", b, labels).with_task_id(f"id{i}")
         try:
             await k.kiq(i)
             send_result[i] = "ok"
@@ -217,7 +227,7 @@ def run_case(sc: Dict[str, Any]) -> Outcome:
                                                        ("async_hook", any(h.get("async") for m in mws for h in m.values())),
                                                        ("stamping_hook", any(h.get("stamp") for m in mws for h in m.values())),
                                                        ("inherited_hook", any(h.get("inherited") for m in mws for h in m.values())),
-                                                       ("concurrent_send", sc["concurrent_send"])) if f]
+                                                       ("concurrent_send", sc["concurrent_send"]), ("redirected_kicker", bool(sc.get("redirect")))) if f]
     out.trace = wh.brief_trace(trace, 70)
     return out
 
